@@ -157,7 +157,7 @@ def run_c15(res, work, tier, seed):
     trace = core.drive("deque", runs, work, "deque")
     tv = tlc.validate_trace("DequeTrace", "DequeTrace.cfg", trace, os.path.join(work, "tv"))
     by_id = {r["run"]: r for r in runs}
-    res.add_tv(tv, by_id, "deque", "edge-cover+random")
+    res.add_tv(tv, by_id, "deque", "edge-cover+random", crash_props=("C15",))
     res.data["witness"]["C15"] = {
         "count": _scan_deque_trace(trace),
         "rule": "distinct runs (kind + operation sequence) of the real SlidingDeque in which the "
@@ -314,7 +314,7 @@ def run_c16(res, work, tier, seed):
     trace = core.drive("sorted", runs, work, "sorted")
     tv = tlc.validate_trace("SortedTrace", "SortedTrace.cfg", trace, os.path.join(work, "tv"))
     by_id = {r["run"]: dict(r, driver_engine="sorted") for r in runs}
-    res.add_tv(tv, by_id, "sorted", "edge-cover+random")
+    res.add_tv(tv, by_id, "sorted", "edge-cover+random", crash_props=("C16", "C15"))
     rule = ("distinct runs (container, item convention, operation sequence) of the real SortedDeque "
             "in which a pop_first/pop_last/remove physically swept at least one tombstone besides "
             "the removed item; runs = edge-cover paths of SortedMC(kv), SortedMC(item) on Vec and "
@@ -335,4 +335,4 @@ def replay(rep, work):
     trace = core.drive(driver, [run], work, "replay")
     module = "DequeTrace" if driver == "deque" else "SortedTrace"
     tv = tlc.validate_trace(module, module + ".cfg", trace, os.path.join(work, "tv"))
-    return tv["viol"]
+    return tv["viol"] + core.crash_viols(("C15", "C16"))
